@@ -403,6 +403,59 @@ func ruleProbeObs(p *Prog, r *Report) {
 				}
 			}
 		}
+		// arithmetic on the probe's order fields (a packed key major<<40|minor<<20|patch, a weighted sum)
+		// is a second encoding of the order; whether it orders like Compare for every magnitude is
+		// arithmetic this analysis does not do
+		{
+			fieldLoad := func(v ssa.Value) (string, bool) {
+				for {
+					if cv, ok := v.(*ssa.Convert); ok {
+						v = cv.X
+						continue
+					}
+					break
+				}
+				u, ok := v.(*ssa.UnOp)
+				if !ok || u.Op != token.MUL {
+					return "", false
+				}
+				fa, ok := u.X.(*ssa.FieldAddr)
+				if !ok || !tainted[fa.X] {
+					return "", false
+				}
+				pt, ok := fa.X.Type().Underlying().(*types.Pointer)
+				if !ok || !types.Identical(pt.Elem(), e.VerT) {
+					return "", false
+				}
+				return e.VerT.Underlying().(*types.Struct).Field(fa.Field).Name(), true
+			}
+			for _, fn := range p.RepoReachable(e.NewRng, e.Contains) {
+				if inCompare[fn] || fn == e.VString || fn.Blocks == nil {
+					continue
+				}
+				for _, b := range fn.Blocks {
+					for _, ins := range b.Instrs {
+						bo, ok := ins.(*ssa.BinOp)
+						if !ok {
+							continue
+						}
+						switch bo.Op {
+						case token.SHL, token.SHR, token.OR, token.XOR, token.AND, token.AND_NOT, token.ADD, token.SUB, token.MUL, token.QUO, token.REM:
+						default:
+							continue
+						}
+						if !isIntType(bo.Type()) {
+							continue
+						}
+						for _, op := range []ssa.Value{bo.X, bo.Y} {
+							if name, ok := fieldLoad(op); ok {
+								findings = append(findings, fmt.Sprintf("%s|computes with probe.%s (%s %s), a second encoding of the order (%s)", p.FnKey(fn), name, bo.Op, "arithmetic", p.Pos(bo.Pos())))
+							}
+						}
+					}
+				}
+			}
+		}
 		sort.Strings(findings)
 		seen := map[string]bool{}
 		nbad := 0
@@ -420,6 +473,10 @@ func ruleProbeObs(p *Prog, r *Report) {
 				continue
 			}
 			nbad++
+			if strings.HasPrefix(msg, "computes with") {
+				r.Und("R-PROBE-OBS", k, p.FnPos(e.Contains), msg+": whether that encoding orders versions as Compare does, for every magnitude of the components, is not decided; if it does not, the range has holes")
+				continue
+			}
 			r.Bad("R-PROBE-OBS", k, p.FnPos(e.Contains), msg+": two versions that compare equal can be treated differently by the range")
 		}
 		if nbad == 0 {
